@@ -205,12 +205,38 @@ def run_case(spec):
                     tx[e1][r, cc] = GR(1)
             need_order = tuple(2 if k == 0 else 0 for k in range(p.n_par))
         else:
-            for (r, cc) in ((i, j), (j, i)):
-                tf[e1][r, cc] = 1.0
-                if p.exact:
-                    tx[e1][r, cc] = GR(1)
+            indirect = False
+            sa_, sb_ = list(range(off[a], off[a + 1])), list(range(off[b], off[b + 1]))
+            if (len(sa_) >= 2 or len(sb_) >= 2) and rng.random() < 0.35:
+                # the two blocks ARE coupled at first order, but not at the positions of the degenerate states: those are
+                # coupled only through the other states (from second order on); the blocks still share an energy
+                indirect = True
+                Ez = np.diag(tf[z])
+                shared_a = [r for r in sa_ if abs(Ez[r] - Ez[i]) <= 1e-9 * max(1.0, abs(Ez[i])) + 1e-12]
+                shared_b = [cc for cc in sb_ if abs(Ez[cc] - Ez[i]) <= 1e-5 * max(1.0, abs(Ez[i]))]
+                for n in list(tf):
+                    if n == z:
+                        continue
+                    for r in shared_a:
+                        for cc in shared_b:
+                            tf[n][r, cc] = tf[n][cc, r] = 0
+                            if p.exact:
+                                tx[n][r, cc] = tx[n][cc, r] = GR(0)
+                others = [(r, cc) for r in sa_ for cc in sb_ if not (r in shared_a and cc in shared_b)]
+                if not others:
+                    indirect = False
+                else:
+                    for (r, cc) in others:
+                        tf[e1][r, cc] = tf[e1][cc, r] = 1.0
+                        if p.exact:
+                            tx[e1][r, cc] = tx[e1][cc, r] = GR(1)
+            if not indirect:
+                for (r, cc) in ((i, j), (j, i)):
+                    tf[e1][r, cc] = 1.0
+                    if p.exact:
+                        tx[e1][r, cc] = GR(1)
             need_order = e1
-        variant = f"{'isclose' if close else 'exact'}{' late' if late else ''}"
+        variant = f"{'isclose' if close else 'exact'}{' late' if late else ''}{' indirect' if (not late and indirect) else ''}"
         sel_fd = tuple(x for x in p.fd)
         q = matprob.derive(p, terms_f=tf, terms_x=tx, masks={}, fd=sel_fd)
         q.spec["max_total"] = 2
